@@ -44,7 +44,7 @@ type Executor struct {
 	// Prov, when non-nil, receives the provenance of every field position (key = PathKey(path)).
 	Prov map[string]Prov
 	// OnField, when set, may veto a field (authorization): returning an error makes the field an error.
-	OnField func(obj *Obj, fd *ast.FieldDefinition, path []any) error
+	OnField func(obj *Obj, fd *ast.FieldDefinition, args map[string]any, path []any) error
 	// IgnoreDirectives disables @skip/@include evaluation (never used by default)
 	coercer Coercer
 }
@@ -209,7 +209,7 @@ func (e *Executor) field(obj *Obj, def *ast.Definition, fd *ast.FieldDefinition,
 		return fail("argument coercion: " + cerr.Error())
 	}
 	if e.OnField != nil {
-		if err := e.OnField(obj, fd, path); err != nil {
+		if err := e.OnField(obj, fd, args, path); err != nil {
 			return fail(err.Error())
 		}
 	}
@@ -292,6 +292,9 @@ type Universe struct {
 	Entities map[string]bool
 	PoolSize int
 	MaxList  int // list lengths are hash % (MaxList+1)
+	// AliasIDs: values (and so the ids of returned entities) also depend on the response key when it
+	// differs from the field name, so the same field selected under two aliases yields different entities
+	AliasIDs bool
 }
 
 func H(parts ...string) uint64 {
@@ -360,6 +363,11 @@ func canonInto(sb *strings.Builder, v any) {
 
 func (u *Universe) Resolve(obj *Obj, parentDef *ast.Definition, fd *ast.FieldDefinition, args map[string]any, path []any) (any, error) {
 	base := fmt.Sprintf("%d|%s|%s|%s|%s", u.Seed, obj.Type, obj.ID, fd.Name, argsDigest(args))
+	if u.AliasIDs && len(path) > 0 {
+		if k, ok := path[len(path)-1].(string); ok && k != fd.Name {
+			base += "|@" + k
+		}
+	}
 	return u.value(fd.Type, obj, fd, base, args), nil
 }
 
